@@ -242,7 +242,8 @@ def toCI2 (i : Info) : Gen.FnSimpleCommit.CommitmentInfo2 Nat :=
     to_broadcaster_value_sat := i.toBroadcaster, offered_htlcs := i.offered.map toH,
     received_htlcs := i.received.map toH, feerate_per_kw := i.feerate }
 
-def toCh (c : ChainState) : Gen.FnSimpleCommit.ChainState := { current_height := c.height }
+def toCh (c : ChainState) : Gen.FnSimpleCommit.ChainState :=
+  { current_height := c.height, funding_depth := c.fundingDepth, closing_depth := c.closingDepth }
 
 /-- the `EnforcementState` fields read by the two sequencing wrappers (points and payment hashes are opaque ids) -/
 def toES2 (e : EState) : Gen.FnSimpleCommit.EnforcementState Nat Nat :=
@@ -980,6 +981,112 @@ theorem C05_fn_validate_holder_commitment_tx {CF HD : Type} (p : Policy) (s : Se
               bind, Except.bind, pure, Except.pure]
     · have h2b : ¬ n + 2 ≤ 18446744073709551615 := by omega
       simp [h2, h2b, Rs.uadd, addU64, Rs.U64_MAX, U64.MAX, relK, Rs.overflow, bind, Except.bind]
+
+/-! ### the `OnchainValidator` wrappers around them (`policy/onchain_validator.rs`)
+
+`self.inner` (an `Arc<dyn Validator>`) is an external of the generated wrappers; the theorems instantiate it with the
+generated `SimpleValidator` methods tied above, so the statement is about the composition the on-chain factory builds:
+WHICH requests pass `ensure_funding_buried_and_unspent` (every counterparty commitment; a holder commitment iff
+`next_holder_commit_num <= commit_num`) and that the arguments are handed on unchanged. -/
+
+def toOV2 : Gen.FnSimpleCommit.OnchainValidator Unit :=
+  { inner := (), policy := { min_funding_depth := Gen.Policy.minFundingDepth } }
+
+theorem relK_ensure_funding (p : Policy) (c : ChainState) (n : Nat) :
+    relK (Gen.FnSimpleCommit.OnchainValidator.ensure_funding_buried_and_unspent (filt p) toOV2 n (toCh c))
+      = ensureFundingBuried p c n := by
+  unfold Gen.FnSimpleCommit.OnchainValidator.ensure_funding_buried_and_unspent ensureFundingBuried check policyErr errs
+    Rs.policyErr
+  simp only [toOV2, toCh, filt, Tag.name]
+  by_cases h0 : n > 0 <;>
+    by_cases h1 : c.fundingDepth < Gen.Policy.minFundingDepth <;>
+    by_cases h2 : c.closingDepth > 0 <;>
+    by_cases h3 : filterEval p.filter "policy-commitment-spends-active-utxo" = Gen.Policy.Action.error <;>
+    simp [h0, h1, h2, h3, relK, kindOfTag, Tag.kind, Rs.fail, bind, Except.bind, pure, Except.pure]
+
+theorem checkHtlcs_off (p : Policy) (c : ChainState) (lim : Nat) :
+    ∀ (l : List Htlc) (acc : Nat), checkHtlcs { p with onchain := false } c lim l acc = checkHtlcs p c lim l acc := by
+  intro l
+  induction l with
+  | nil => intro acc; rfl
+  | cons h rest ih =>
+    intro acc
+    simp only [checkHtlcs, ih]
+    rfl
+
+theorem validateCommitmentTx_off (p : Policy) (s : Setup) (c : ChainState) (n : Nat) (i : Info) :
+    validateCommitmentTx { p with onchain := false } s c n i = validateCommitmentTx p s c n i := by
+  unfold validateCommitmentTx
+  simp only [checkHtlcs_off]
+  rfl
+
+/-- the part of the model's `validateCounterparty` / `validateHolder` behind the on-chain gate does not depend on which
+    factory built the validator -/
+theorem validateCounterparty_split (p : Policy) (s : Setup) (c : ChainState) (e : EState) (n point : Nat) (i : Info) :
+    validateCounterparty p s c e n point i
+      = (do whenE p.onchain (ensureFundingBuried p c n)
+            validateCounterparty { p with onchain := false } s c e n point i) := by
+  unfold validateCounterparty
+  simp only [whenE, Bool.false_eq_true, if_false, validateCommitmentTx_off]
+  rfl
+
+theorem validateHolder_split (p : Policy) (s : Setup) (c : ChainState) (e : EState) (n : Nat) (i : Info) :
+    validateHolder p s c e n i
+      = (do whenE (p.onchain && decide (e.nextHolder ≤ n)) (ensureFundingBuried p c n)
+            validateHolder { p with onchain := false } s c e n i) := by
+  unfold validateHolder
+  simp only [whenE, Bool.false_and, Bool.false_eq_true, if_false, validateCommitmentTx_off]
+  rfl
+
+/-- **`OnchainValidator::validate_counterparty_commitment_tx` over the simple validator** = `validateCounterparty` with
+    `p.onchain = true`: every counterparty commitment number goes through the gate, whatever the counters say -/
+theorem C05_fn_onchain_validate_counterparty_commitment_tx {CF HD : Type} (p : Policy) (s : Setup) (c : ChainState)
+    (e : EState) (n point : Nat) (i : Info)
+    (dO dR : Gen.FnSimpleCommit.CommitmentInfo2 Nat → Gen.FnSimpleCommit.CommitmentInfo2 Nat → HD × HD)
+    (extF : Gen.FnSimpleCommit.ChannelSetup → CF) (extT extS : CF → Nat)
+    (hoc : p.onchain = true)
+    (hT : s.isZeroFeeHtlc = false → extT (extF (toCS s)) = htlcTimeoutWeight)
+    (hS : s.isZeroFeeHtlc = false → extS (extF (toCS s)) = htlcSuccessWeight)
+    (hf : i.feerate ≤ Rs.U32_MAX)
+    (hn : (i.offered.length + i.received.length) * 172 + 1124 ≤ Rs.USIZE_MAX)
+    (hv : s.channelValue ≤ Rs.U64_MAX) :
+    relK (Gen.FnSimpleCommit.OnchainValidator.validate_counterparty_commitment_tx (filt p)
+            (fun _ es m pt st cs inf => Gen.FnSimpleCommit.SimpleValidator.validate_counterparty_commitment_tx dO dR
+              (filt p) extF extT extS (toV2 p) es m pt st cs inf)
+            toOV2 (toES2 e) n point (toCS s) (toCh c) (toCI2 i)) = validateCounterparty p s c e n point i := by
+  have hin := C05_fn_validate_counterparty_commitment_tx { p with onchain := false } s c e n point i dO dR extF extT extS rfl
+    hT hS hf hn hv
+  rw [validateCounterparty_split, hoc]
+  unfold Gen.FnSimpleCommit.OnchainValidator.validate_counterparty_commitment_tx
+  simp only [relK_bind, relK_ensure_funding, whenE, if_true]
+  exact congrArg _ (funext fun _ => hin)
+
+/-- **`OnchainValidator::validate_holder_commitment_tx` over the simple validator** = `validateHolder` with
+    `p.onchain = true`: the gate is applied iff `next_holder_commit_num <= commit_num` (a NEW holder commitment) -/
+theorem C05_fn_onchain_validate_holder_commitment_tx {CF HD : Type} (p : Policy) (s : Setup) (c : ChainState)
+    (e : EState) (n point : Nat) (i : Info)
+    (dO dR : Gen.FnSimpleCommit.CommitmentInfo2 Nat → Gen.FnSimpleCommit.CommitmentInfo2 Nat → HD × HD)
+    (extF : Gen.FnSimpleCommit.ChannelSetup → CF) (extT extS : CF → Nat)
+    (hoc : p.onchain = true)
+    (hT : s.isZeroFeeHtlc = false → extT (extF (toCS s)) = htlcTimeoutWeight)
+    (hS : s.isZeroFeeHtlc = false → extS (extF (toCS s)) = htlcSuccessWeight)
+    (hf : i.feerate ≤ Rs.U32_MAX)
+    (hn : (i.offered.length + i.received.length) * 172 + 1124 ≤ Rs.USIZE_MAX)
+    (hv : s.channelValue ≤ Rs.U64_MAX) :
+    relK (Gen.FnSimpleCommit.OnchainValidator.validate_holder_commitment_tx (filt p)
+            (fun _ es m pt st cs inf => Gen.FnSimpleCommit.SimpleValidator.validate_holder_commitment_tx dO dR
+              (filt p) extF extT extS (toV2 p) es m pt st cs inf)
+            toOV2 (toES2 e) n point (toCS s) (toCh c) (toCI2 i)) = validateHolder p s c e n i := by
+  have hin := C05_fn_validate_holder_commitment_tx { p with onchain := false } s c e n point i dO dR extF extT extS rfl
+    hT hS hf hn hv
+  rw [validateHolder_split, hoc]
+  unfold Gen.FnSimpleCommit.OnchainValidator.validate_holder_commitment_tx
+  simp only [toES2_nh, Bool.true_and, whenE]
+  by_cases hg : e.nextHolder ≤ n
+  · simp only [hg, decide_true, if_true, relK_bind, relK_ensure_funding]
+    exact congrArg _ (funext fun _ => hin)
+  · simp only [hg, decide_false, Bool.false_eq_true, if_false]
+    exact hin
 
 /-! ### `validate_setup_channel` (area `SimpleSetup`; the wallet is an external) -/
 
